@@ -154,6 +154,9 @@ static std::string status_line(const Out &R) {
 }
 
 // ---------------------------------------------------------------------------- fork wrapper
+#ifdef PV_COVERAGE
+extern "C" void __gcov_dump(void);
+#endif
 
 static std::string in_child(const std::function<std::string()> &f) {
   int po[2], pe[2];
@@ -168,6 +171,9 @@ static std::string in_child(const std::function<std::string()> &f) {
     std::string r = f();
     size_t off = 0;
     while (off < r.size()) { ssize_t w = write(po[1], r.data() + off, r.size() - off); if (w <= 0) break; off += w; }
+#ifdef PV_COVERAGE
+    __gcov_dump();   // coverage runs only (tools/coverage.sh): children leave through _Exit
+#endif
     std::_Exit(0);
   }
   close(po[1]); close(pe[1]);
